@@ -90,6 +90,51 @@ Qed.
 
 (* ---------- one segmented message: k segments, any interleaving of its events ---------- *)
 
+(* responses, receipts and expiries never touch the reference -> status key map *)
+Lemma response_cur s r mid : c_cur (h_corr (fst (handle_response s r mid))) = c_cur (h_corr s).
+Proof.
+  unfold handle_response.
+  destruct (negb (mem (rs_cmd r) handled_response_commands)); [reflexivity|].
+  destruct (if rs_cmd r =? SmppCommand_GENERIC_NACK then Ok None
+            else match lookup (rs_cmd r) response_command_map with Some c => Ok (Some c) | None => Err EXN_KeyError end) as [oc|e0]; [|reflexivity].
+  pose proof (get_pop_cur (h_corr s) r) as P. destruct (get_pop (h_corr s) r) as [c1 oe]. cbn [fst] in P.
+  destruct oe as [e|]; [|exact P].
+  destruct (match oc with Some c => negb (sm_cmd (e_msg e) =? c) | None => false end); [exact P|].
+  destruct (((rs_cmd r =? SmppCommand_SUBMIT_SM_RESP) || (rs_cmd r =? SmppCommand_GENERIC_NACK)) && (sm_cmd (e_msg e) =? SmppCommand_SUBMIT_SM)); [|exact P].
+  pose proof (get_segmented_cur c1 (rs_seq r) false) as G. destruct (get_segmented c1 (rs_seq r) false) as [[c2 oss] code]. cbn [fst] in G.
+  assert (forall s3 : hstate, h_corr s3 = c2 -> c_cur (h_corr s3) = c_cur (h_corr s)) as Hs3 by (intros s3 ->; rewrite G; exact P).
+  destruct (mem (rs_status r) throttled_statuses);
+    (destruct oss as [ss|];
+     [ destruct (code =? STATUS_SENDING); [apply Hs3; reflexivity|];
+       destruct (code =? STATUS_EXPIRED); [apply Hs3; reflexivity|];
+       destruct (ss_last_resp ss); apply Hs3; reflexivity
+     | destruct (0 <? snd (sm_sar (e_msg e))); apply Hs3; reflexivity ]).
+Qed.
+
+Lemma expire_cur s sq : c_cur (h_corr (fst (expire_one s sq))) = c_cur (h_corr s).
+Proof.
+  unfold expire_one. destruct (dget sq (c_store (h_corr s))) as [e|]; [|reflexivity].
+  pose proof (expired_cur (with_store (h_corr s) (ddel sq (c_store (h_corr s)))) (e_msg e)) as H.
+  destruct (expired (with_store (h_corr s) (ddel sq (c_store (h_corr s)))) (e_msg e)) as [c2 call]. cbn [fst with_corr h_corr] in *. exact H.
+Qed.
+
+Lemma get_delivery_cur c d r : c_cur (fst (fst (get_delivery c d r))) = c_cur c.
+Proof.
+  unfold get_delivery. destruct (dget (rc_id r) d) as [e|]; [|reflexivity].
+  destruct (dget (sm_seq (e_msg e)) (c_seg c)) as [[ref sseq]|]; [|reflexivity]. destruct (dget ref (c_stat c)); reflexivity.
+Qed.
+
+Lemma receipt_cur s rc b : c_cur (h_corr (fst (handle_receipt s rc b))) = c_cur (h_corr s).
+Proof.
+  unfold handle_receipt. destruct (negb b); [reflexivity|].
+  pose proof (get_delivery_cur (h_corr s) (h_deliv s) rc) as P. destruct (get_delivery (h_corr s) (h_deliv s) rc) as [[c1 d1] om]. cbn [fst] in P.
+  destruct om as [m|]; [|exact P].
+  pose proof (get_segmented_cur c1 (sm_seq m) true) as G. destruct (get_segmented c1 (sm_seq m) true) as [[c2 oss] code]. cbn [fst] in G.
+  assert (forall s3 : hstate, h_corr s3 = c2 -> c_cur (h_corr s3) = c_cur (h_corr s)) as Hs3 by (intros s3 ->; rewrite G; exact P).
+  destruct oss as [ss|]; [|apply Hs3; reflexivity].
+  destruct ((code =? STATUS_SENDING) || (code =? STATUS_SENT)); [apply Hs3; reflexivity|]. destruct (ss_last_rcpt ss); apply Hs3; reflexivity.
+Qed.
+
 Inductive phase := PNot | PSending | PSent | PDone (err : Z).
 
 Definition code (p : phase) : Z :=
@@ -106,6 +151,9 @@ Section Group.
   Definition seg (i : nat) : smsg :=
     {| sm_uid := uid i; sm_cmd := 4; sm_seq := sq i; sm_log := log; sm_sar := (r, Z.of_nat i + 1, Z.of_nat k) |}.
 
+  (* the key of the message's status cell: its reference combined with the sequence number of its first segment *)
+  Definition K : Z := skey r (sq 0%nat).
+
   Definition idx : list nat := seq 0 k.
   Definition status_of (ph : nat -> phase) : dict Z := map (fun i => (Z.of_nat i + 1, code (ph i))) idx.
 
@@ -117,17 +165,17 @@ Section Group.
     /\ (forall i e, (i < k)%nat -> ph i = PDone e -> 0 < e -> exists u e', lrc = Some (u, e') /\ 0 < e')
     /\ ((forall i, (i < k)%nat -> is_done (ph i) = false) -> lrc = None).
 
-  Definition GI (s : hstate) (ph : nat -> phase) (lrc : option (Z * Z)) : Prop :=
+  Definition GI0 (s : hstate) (ph : nat -> phase) (lrc : option (Z * Z)) : Prop :=
     (forall i, (i < k)%nat ->
        match ph i with
        | PSending => exists e, dget (sq i) (c_store (h_corr s)) = Some e /\ e_msg e = seg i
        | _ => dget (sq i) (c_store (h_corr s)) = None
        end)
     /\ (forall i, (i < k)%nat ->
-       dget (sq i) (c_seg (h_corr s)) = match ph i with PSending | PSent => Some (r, Z.of_nat i + 1) | _ => None end)
+       dget (sq i) (c_seg (h_corr s)) = match ph i with PSending | PSent => Some (K, Z.of_nat i + 1) | _ => None end)
     /\ (if forallb (fun i => is_not (ph i)) idx || forallb (fun i => is_done (ph i)) idx
-        then dget r (c_stat (h_corr s)) = None
-        else exists cell, dget r (c_stat (h_corr s)) = Some cell /\ ss_status cell = status_of ph
+        then dget K (c_stat (h_corr s)) = None
+        else exists cell, dget K (c_stat (h_corr s)) = Some cell /\ ss_status cell = status_of ph
                           /\ ss_last_rcpt cell = option_map fst lrc)
     /\ (forall i, (i < k)%nat ->
        match ph i with
@@ -179,7 +227,7 @@ Section Group.
      receipt; final (and the cell deleted) once every segment has its receipt *)
   Lemma cumulated_open c cell ph j : errs_ok ph -> (j < k)%nat -> is_done (ph j) = false ->
     ss_status cell = status_of ph ->
-    exists cd, cumulated c r cell = (c, cd) /\ (cd = STATUS_SENDING \/ cd = STATUS_SENT).
+    exists cd, cumulated c K cell = (c, cd) /\ (cd = STATUS_SENDING \/ cd = STATUS_SENT).
   Proof.
     intros He Hj Hnd Hs. destruct handler_constants as (_ & _ & _ & _ & CS & CT & _).
     unfold cumulated. rewrite Hs, status_values.
@@ -205,7 +253,7 @@ Section Group.
 
   Lemma cumulated_final c cell ph : errs_ok ph -> (forall i, (i < k)%nat -> is_done (ph i) = true) ->
     ss_status cell = status_of ph ->
-    exists cd, cumulated c r cell = (with_stat c (ddel r (c_stat c)), cd) /\ cd <> STATUS_SENDING /\ cd <> STATUS_SENT.
+    exists cd, cumulated c K cell = (with_stat c (ddel K (c_stat c)), cd) /\ cd <> STATUS_SENDING /\ cd <> STATUS_SENT.
   Proof.
     intros He Hall Hs. destruct handler_constants as (_ & _ & _ & _ & CS & CT & _).
     unfold cumulated. rewrite Hs, status_values.
@@ -233,11 +281,11 @@ Section Group.
     if (0 <? e) || match lrc with None => true | Some _ => false end then Some (u, e) else lrc.
 
   (* the receipt of segment i arrives (its response was accepted before) *)
-  Lemma receipt_step s ph lrc i rc :
-    GI s ph lrc -> (i < k)%nat -> ph i = PSent -> rc_id rc = md i -> 0 <= rc_err rc < STATUS_SENT ->
+  Lemma receipt_step0 s ph lrc i rc :
+    GI0 s ph lrc -> (i < k)%nat -> ph i = PSent -> rc_id rc = md i -> 0 <= rc_err rc < STATUS_SENT ->
     let ph' := upd ph i (PDone (rc_err rc)) in
     let lrc' := lrc_after lrc (rc_uid rc) (rc_err rc) in
-    exists s', GI s' ph' lrc'
+    exists s', GI0 s' ph' lrc'
       /\ handle_receipt s rc true =
          (s', if forallb (fun j => is_done (ph' j)) idx
               then [HReceipt (match lrc' with Some (u, _) => u | None => rc_uid rc end) log]
@@ -260,9 +308,9 @@ Section Group.
     { unfold ss2, lrc', lrc_after. assert (ss_last_rcpt ss1 = option_map fst lrc) as E1 by (unfold ss1; cbn; exact Hlr).
       rewrite E1. destruct lrc as [[u0 e0]|]; cbn [option_map fst];
         destruct (0 <? rc_err rc); cbn [orb]; split; try exact Hst1; try reflexivity; cbn; exact E1. }
-    set (c1 := with_stat (h_corr s) (dset (c_stat (h_corr s)) r ss2)).
+    set (c1 := with_stat (h_corr s) (dset (c_stat (h_corr s)) K ss2)).
     unfold get_segmented. cbn [with_stat c_seg sm_seq seg]. change (c_seg c1) with (c_seg (h_corr s)). rewrite Hbi.
-    cbn [with_seg c_stat]. change (c_stat c1) with (dset (c_stat (h_corr s)) r ss2). rewrite dget_dset_same.
+    cbn [with_seg c_stat]. change (c_stat c1) with (dset (c_stat (h_corr s)) K ss2). rewrite dget_dset_same.
     assert (errs_ok ph') as He'.
     { intros j e' Hj Hpj. unfold ph' in Hpj. destruct (Nat.eq_dec j i) as [->|Hne].
       - rewrite upd_same in Hpj. injection Hpj as <-. exact Herr.
@@ -286,7 +334,7 @@ Section Group.
     { intros j Hj. unfold ph'. destruct (Nat.eq_dec j i) as [->|Hne]; [rewrite upd_same; specialize (Ha i Hi); rewrite Hp in Ha; exact Ha|].
       rewrite upd_other by exact Hne. apply Ha, Hj. }
     assert (forall j, (j < k)%nat ->
-              dget (sq j) (ddel (sq i) (c_seg (h_corr s))) = match ph' j with PSending | PSent => Some (r, Z.of_nat j + 1) | _ => None end) as Hb'.
+              dget (sq j) (ddel (sq i) (c_seg (h_corr s))) = match ph' j with PSending | PSent => Some (K, Z.of_nat j + 1) | _ => None end) as Hb'.
     { intros j Hj. unfold ph'. destruct (Nat.eq_dec j i) as [->|Hne].
       - rewrite upd_same. apply dget_ddel_same. exact N1.
       - rewrite upd_other by exact Hne. rewrite dget_ddel_other; [apply Hb, Hj|]. intros E. apply Hne. apply sq_inj; auto. }
@@ -306,7 +354,7 @@ Section Group.
       destruct (cumulated_final (with_seg c1 (ddel (sq i) (c_seg (h_corr s)))) ss2 ph' He' Hall Hst2) as (cd & Hcum & Hn1 & Hn2).
       rewrite Hcum. apply Z.eqb_neq in Hn1, Hn2. rewrite Hn1, Hn2. cbn [orb]. rewrite Hlr2.
       eexists. split; [|destruct lrc' as [[u e']|] eqn:El; cbn [option_map fst]; [reflexivity|]].
-      + unfold GI. cbn [h_corr h_deliv with_stat with_seg c_store c_seg c_stat c1].
+      + unfold GI0. cbn [h_corr h_deliv with_stat with_seg c_store c_seg c_stat c1].
         split; [exact Ha'|]. split; [exact Hb'|]. split.
         * rewrite Fn', Fd'. cbn [orb]. apply dget_ddel_same. apply dkeys_dset_NoDup. exact N2.
         * split; [exact Hd'|]. split; [exact He'|]. split; [exact Hl'|].
@@ -320,7 +368,7 @@ Section Group.
       rewrite Hcum. assert ((cd =? STATUS_SENDING) || (cd =? STATUS_SENT) = true) as ->
         by (destruct Hcd as [-> | ->]; rewrite Z.eqb_refl; [reflexivity|apply orb_true_r]).
       eexists. split; [|reflexivity].
-      unfold GI. cbn [h_corr h_deliv with_stat with_seg c_store c_seg c_stat c1].
+      unfold GI0. cbn [h_corr h_deliv with_stat with_seg c_store c_seg c_stat c1].
       split; [exact Ha'|]. split; [exact Hb'|]. split.
       + rewrite Fn', Fd'. cbn [orb]. exists ss2. split; [apply dget_dset_same|]. split; [exact Hst2|exact Hlr2].
       + split; [exact Hd'|]. split; [exact He'|]. split; [exact Hl'|].
@@ -339,40 +387,44 @@ Section Group.
   Qed.
 
   (* segment i is stored after its write *)
-  Lemma put_step s ph lrc i :
-    GI s ph lrc -> (i < k)%nat -> ph i = PNot ->
+  Lemma put_step0 s ph lrc i :
+    GI0 s ph lrc -> (i < k)%nat -> ph i = PNot ->
     (i = 0%nat -> forall j, (j < k)%nat -> ph j = PNot) -> (i <> 0%nat -> ph 0%nat <> PNot) ->
-    exists s', hstep s (HPut (seg i)) = (s', []) /\ GI s' (upd ph i PSending) lrc.
+    (i <> 0%nat -> dget r (c_cur (h_corr s)) = Some K) ->
+    exists s', hstep s (HPut (seg i)) = (s', []) /\ GI0 s' (upd ph i PSending) lrc /\ dget r (c_cur (h_corr s')) = Some K.
   Proof.
-    intros (Ha & Hb & Hc & Hd & He & Hl & N1 & N2 & N3 & N4) Hi Hp Hfirst Hlater.
+    intros (Ha & Hb & Hc & Hd & He & Hl & N1 & N2 & N3 & N4) Hi Hp Hfirst Hlater Hcur.
     cbn [hstep]. eexists. split; [reflexivity|].
-    unfold put_store. rewrite seg_is_submit. cbn [seg sm_sar sm_seq].
-    replace (0 <? Z.of_nat k) with true by (symmetry; apply Z.ltb_lt; lia).
-    cbn [with_store with_seg with_stat c_store c_seg c_stat].
     set (ph' := upd ph i PSending).
     assert (forallb (fun j => is_done (ph j)) idx = false) as Fd by (apply (forallb_idx_false _ i Hi); rewrite Hp; reflexivity).
     assert (forallb (fun j => is_not (ph' j)) idx = false) as Fn' by (apply (forallb_idx_false _ i Hi); unfold ph'; rewrite upd_same; reflexivity).
     assert (forallb (fun j => is_done (ph' j)) idx = false) as Fd' by (apply (forallb_idx_false _ i Hi); unfold ph'; rewrite upd_same; reflexivity).
-    assert (exists cell', (match (if 1 <? Z.of_nat i + 1 then dget r (c_stat (h_corr s)) else None) with
-                           | Some ss => ss
-                           | None => {| ss_status := map (fun j => (Z.of_nat j, STATUS_SENDING)) (seq 1 (Z.to_nat (Z.of_nat k)));
-                                        ss_orig := seg i; ss_last_resp := None; ss_last_rcpt := None |}
-                           end) = cell' /\ ss_status cell' = status_of ph /\ ss_last_rcpt cell' = option_map fst lrc) as (cell' & Ecell & Hst & Hlr).
+    (* the new correlator state, in both cases: the segment joins (or starts) the cell under K *)
+    assert (exists cell', ss_status cell' = status_of ph /\ ss_last_rcpt cell' = option_map fst lrc /\
+              exists cur', dget r cur' = Some K /\
+              put_store (h_corr s) 0%Q (seg i) (h_next s) =
+              {| c_store := dset (c_store (h_corr s)) (sq i) {| e_at := 0%Q; e_msg := seg i; e_id := h_next s |};
+                 c_seg := dset (c_seg (h_corr s)) (sq i) (K, Z.of_nat i + 1);
+                 c_stat := dset (c_stat (h_corr s)) K (set_status cell' (Z.of_nat i + 1) STATUS_SENDING);
+                 c_cur := cur'; c_ttl := c_ttl (h_corr s) |}) as (cell' & Hst & Hlr & cur' & Hcur' & Eput).
     { destruct (Nat.eq_dec i 0) as [E0|N0].
-      - (* the first segment: a new cell, whatever the store holds under this reference *)
-        subst i. change (1 <? Z.of_nat 0 + 1) with false. cbv iota.
-        eexists. split; [reflexivity|]. cbn [ss_status ss_last_rcpt]. rewrite Nat2Z.id. split.
-        + apply fresh_status. intros j Hj. apply (Hfirst eq_refl j Hj).
-        + destruct Hl as (_ & _ & Hl3). rewrite Hl3; [reflexivity|].
+      - (* the first segment: a new cell under a new key *)
+        subst i. exists (fresh_cell (seg 0%nat) (Z.of_nat k)). split; [|split].
+        + unfold fresh_cell. cbn [ss_status]. rewrite Nat2Z.id. apply fresh_status. intros j Hj. apply (Hfirst eq_refl j Hj).
+        + unfold fresh_cell. cbn [ss_last_rcpt]. destruct Hl as (_ & _ & Hl3). rewrite Hl3; [reflexivity|].
           intros j Hj. rewrite (Hfirst eq_refl j Hj). reflexivity.
-      - replace (1 <? Z.of_nat i + 1) with true by (symmetry; apply Z.ltb_lt; lia). cbv iota.
-        assert (forallb (fun j => is_not (ph j)) idx = false) as Fn.
+        + exists (dset (c_cur (h_corr s)) r K). split; [apply dget_dset_same|].
+          rewrite (put_store_first (h_corr s) 0%Q (seg 0%nat) (h_next s) r (Z.of_nat 0 + 1) (Z.of_nat k) (seg_is_submit 0%nat) eq_refl ltac:(lia) ltac:(lia)).
+          reflexivity.
+      - assert (forallb (fun j => is_not (ph j)) idx = false) as Fn.
         { apply (forallb_idx_false _ 0%nat ltac:(lia)). specialize (Hlater N0). destruct (ph 0%nat); try reflexivity. contradiction. }
-        rewrite Fn, Fd in Hc. cbn [orb] in Hc. destruct Hc as (cell & -> & H1 & H2). exists cell. auto. }
+        rewrite Fn, Fd in Hc. cbn [orb] in Hc. destruct Hc as (cell & Hcell & H1 & H2). exists cell. split; [exact H1|]. split; [exact H2|].
+        exists (c_cur (h_corr s)). split; [exact (Hcur N0)|].
+        rewrite (put_store_join (h_corr s) 0%Q (seg i) (h_next s) r (Z.of_nat i + 1) (Z.of_nat k) K cell (seg_is_submit i) eq_refl ltac:(lia) ltac:(lia) (Hcur N0) Hcell).
+        reflexivity. }
+    rewrite Eput. split; [|cbn [h_corr c_cur]; exact Hcur'].
     assert (ss_last_rcpt cell' = option_map fst lrc) as Hlr' by exact Hlr.
-    unfold GI. cbn [h_corr h_deliv c_store c_seg c_stat].
-    fold seg. change {| sm_uid := uid i; sm_cmd := 4; sm_seq := sq i; sm_log := log; sm_sar := (r, Z.of_nat i + 1, Z.of_nat k) |} with (seg i) in *.
-    rewrite Ecell. cbn [with_store with_seg with_stat c_store c_seg c_stat].
+    unfold GI0. cbn [h_corr h_deliv c_store c_seg c_stat].
     split.
     { intros j Hj. unfold ph'. destruct (Nat.eq_dec j i) as [->|Hne].
       - rewrite upd_same. eexists. split; [apply dget_dset_same|reflexivity].
@@ -407,9 +459,9 @@ Section Group.
   Definition ok_resp (i : nat) (u : Z) : resp := {| rs_uid := u; rs_cmd := 2147483652; rs_seq := sq i; rs_status := 0 |}.
 
   (* the SMSC accepts segment i under message id md i *)
-  Lemma resp_ok_step s ph lrc i u :
-    GI s ph lrc -> (i < k)%nat -> ph i = PSending ->
-    exists s' out, handle_response s (ok_resp i u) (md i) = (s', out) /\ GI s' (upd ph i PSent) lrc.
+  Lemma resp_ok_step0 s ph lrc i u :
+    GI0 s ph lrc -> (i < k)%nat -> ph i = PSending ->
+    exists s' out, handle_response s (ok_resp i u) (md i) = (s', out) /\ GI0 s' (upd ph i PSent) lrc.
   Proof.
     intros (Ha & Hb & Hc & Hd & He & Hl & N1 & N2 & N3 & N4) Hi Hp.
     destruct handler_constants as (C4 & CR & CN & C0 & CS & CT & Hm & Hlk & Ht).
@@ -438,13 +490,13 @@ Section Group.
     assert (errs_ok ph') as He'.
     { intros j e' Hj Hpj. unfold ph' in Hpj. destruct (Nat.eq_dec j i) as [->|Hne]; [rewrite upd_same in Hpj; discriminate|].
       rewrite upd_other in Hpj by exact Hne. apply (He j e' Hj Hpj). }
-    match goal with |- context [cumulated ?c0 r cell'] =>
+    match goal with |- context [cumulated ?c0 K cell'] =>
       destruct (cumulated_open c0 cell' ph' i He' Hi ltac:(unfold ph'; rewrite upd_same; reflexivity) Hst') as (cd & Hcum & Hcd); rewrite Hcum end.
-    assert (GI {| h_corr := with_stat (with_store (h_corr s) (ddel (sq i) (c_store (h_corr s)))) (dset (c_stat (h_corr s)) r cell');
+    assert (GI0 {| h_corr := with_stat (with_store (h_corr s) (ddel (sq i) (c_store (h_corr s)))) (dset (c_stat (h_corr s)) K cell');
                   h_deliv := put_delivery (h_deliv s) 0%Q (md i) (seg i) (h_next s);
                   h_next := h_next s + 1; h_thr := h_thr s; h_nonthr := h_nonthr s + 1;
                   h_rlog := dset (h_rlog s) u log |} ph' lrc) as HG.
-    { unfold GI. cbn [h_corr h_deliv with_stat with_store c_store c_seg c_stat]. unfold put_delivery.
+    { unfold GI0. cbn [h_corr h_deliv with_stat with_store c_store c_seg c_stat]. unfold put_delivery.
       split.
       { intros j Hj. unfold ph'. destruct (Nat.eq_dec j i) as [->|Hne].
         - rewrite upd_same. apply dget_ddel_same. exact N4.
@@ -473,6 +525,52 @@ Section Group.
       split; [exact N1|]. split; [apply dkeys_dset_NoDup; exact N2|]. split; [apply dkeys_dset_NoDup; exact N3|apply dkeys_ddel_NoDup; exact N4]. }
     cbn [seg sm_log] in *.
     destruct (cd =? STATUS_SENDING); [|destruct (cd =? STATUS_EXPIRED); [|destruct (ss_last_resp cell')]]; (eexists; eexists; split; [reflexivity|exact HG]).
+  Qed.
+
+  (* ---- the invariant with the reference -> key map: while segments remain to be stored, the message being sent under
+     reference r is this one ---- *)
+  Definition GI (s : hstate) (ph : nat -> phase) (lrc : option (Z * Z)) : Prop :=
+    GI0 s ph lrc /\ (ph 0%nat <> PNot -> (exists j, (j < k)%nat /\ ph j = PNot) -> dget r (c_cur (h_corr s)) = Some K).
+
+  Lemma put_step s ph lrc i :
+    GI s ph lrc -> (i < k)%nat -> ph i = PNot ->
+    (i = 0%nat -> forall j, (j < k)%nat -> ph j = PNot) -> (i <> 0%nat -> ph 0%nat <> PNot) ->
+    exists s', hstep s (HPut (seg i)) = (s', []) /\ GI s' (upd ph i PSending) lrc.
+  Proof.
+    intros [HG Hcur] Hi Hp Hfirst Hlater.
+    assert (i <> 0%nat -> dget r (c_cur (h_corr s)) = Some K) as Hc.
+    { intros N0. apply Hcur; [apply Hlater; exact N0|]. exists i. split; assumption. }
+    destruct (put_step0 s ph lrc i HG Hi Hp Hfirst Hlater Hc) as (s' & Hs & HG' & Hcur').
+    exists s'. split; [exact Hs|]. split; [exact HG'|]. intros _ _. exact Hcur'.
+  Qed.
+
+  Lemma resp_ok_step s ph lrc i u :
+    GI s ph lrc -> (i < k)%nat -> ph i = PSending ->
+    exists s' out, handle_response s (ok_resp i u) (md i) = (s', out) /\ GI s' (upd ph i PSent) lrc.
+  Proof.
+    intros [HG Hcur] Hi Hp. destruct (resp_ok_step0 s ph lrc i u HG Hi Hp) as (s' & out & Hs & HG').
+    exists s', out. split; [exact Hs|]. split; [exact HG'|].
+    pose proof (response_cur s (ok_resp i u) (md i)) as Hc. rewrite Hs in Hc. cbn [fst] in Hc. rewrite Hc.
+    intros H0 (j & Hj & Hpj). destruct (Nat.eq_dec j i) as [->|Hne]; [rewrite upd_same in Hpj; discriminate|].
+    rewrite upd_other in Hpj by exact Hne. apply Hcur; [|exists j; split; assumption].
+    destruct (Nat.eq_dec 0 i) as [<-|N0]; [rewrite Hp; discriminate|]. rewrite upd_other in H0 by exact N0. exact H0.
+  Qed.
+
+  Lemma receipt_step s ph lrc i rc :
+    GI s ph lrc -> (i < k)%nat -> ph i = PSent -> rc_id rc = md i -> 0 <= rc_err rc < STATUS_SENT ->
+    let ph' := upd ph i (PDone (rc_err rc)) in
+    let lrc' := lrc_after lrc (rc_uid rc) (rc_err rc) in
+    exists s', GI s' ph' lrc'
+               /\ handle_receipt s rc true =
+                  (s', if forallb (fun j => is_done (ph' j)) idx
+                       then [HReceipt (match lrc' with Some (u, _) => u | None => rc_uid rc end) log] else [HRaw]).
+  Proof.
+    intros [HG Hcur] Hi Hp Hid Herr ph' lrc'. destruct (receipt_step0 s ph lrc i rc HG Hi Hp Hid Herr) as (s' & HG' & Hs).
+    exists s'. split; [|exact Hs]. split; [exact HG'|].
+    pose proof (receipt_cur s rc true) as Hc. rewrite Hs in Hc. cbn [fst] in Hc. rewrite Hc.
+    intros H0 (j & Hj & Hpj). unfold ph' in *. destruct (Nat.eq_dec j i) as [->|Hne]; [rewrite upd_same in Hpj; discriminate|].
+    rewrite upd_other in Hpj by exact Hne. apply Hcur; [|exists j; split; assumption].
+    destruct (Nat.eq_dec 0 i) as [<-|N0]; [rewrite Hp; discriminate|]. rewrite upd_other in H0 by exact N0. exact H0.
   Qed.
 
   (* ---- any admissible interleaving of the message's events ---- *)
@@ -557,7 +655,8 @@ Section Group.
 
   Lemma GI_init : GI hinit (fun _ => PNot) None.
   Proof.
-    unfold GI, hinit, corr_init. cbn [h_corr h_deliv c_store c_seg c_stat].
+    split; [|intros H; contradiction H; reflexivity].
+    unfold GI0, hinit, corr_init. cbn [h_corr h_deliv c_store c_seg c_stat].
     split; [intros i _; reflexivity|]. split; [intros i _; reflexivity|]. split.
     - assert (forallb (fun i : nat => is_not PNot) idx = true) as -> by (apply forallb_idx_true; reflexivity). reflexivity.
     - split; [intros i _; reflexivity|]. split; [intros i e _ H; discriminate|]. split.
